@@ -72,7 +72,7 @@ pub fn gen_op(cx: &Cx, t: SignType, max_pages: u64) -> Op {
 /// ahead of time and twins agree): a slice iterator, or one of several lazy adaptors whose
 /// `size_hint` lower bound is 0 although they yield every page.
 fn iter_kind(pages: &[Page<'static>]) -> usize {
-    (pages.len() + pages.first().map(|p| usize::from(p.id().0)).unwrap_or(0)) % 7
+    (pages.len() + pages.first().map(|p| usize::from(p.id().0)).unwrap_or(0)) % 9
 }
 
 /// Like `apply`, but `probe` is called every time the page list is advanced (a caller's lazy page
@@ -111,6 +111,18 @@ pub fn apply(sign: &Sign, op: &Op) -> Outcome {
                 1 => cls(sign.send_pages(p.iter().filter(|_| true)), style),
                 2 => cls(sign.send_pages(p.iter().collect::<Vec<&Page<'static>>>()), style),
                 3 => cls(sign.send_pages(p.iter().skip_while(|_| false)), style),
+                6 => {
+                    // groups of pages flattened: the iterator's size hint is (0, None) although it is finite
+                    let groups: Vec<&[Page<'static>]> = if p.len() >= 2 { vec![&p[..1], &p[1..]] } else { vec![&p[..]] };
+                    cls(sign.send_pages(groups.iter().flat_map(|g| g.iter())), style)
+                }
+                7 => {
+                    // a title page followed by a filtered rest: the lower bound of the size hint is 1, not exact
+                    match p.split_first() {
+                        Some((first, rest)) => cls(sign.send_pages(std::iter::once(first).chain(rest.iter().filter(|_| true))), style),
+                        None => cls(sign.send_pages(p.iter()), style),
+                    }
+                }
                 5 => {
                     // zero-copy pages: every page borrows its bytes from ONE contiguous buffer, each
                     // starting exactly where the previous one ends (`Page::from_bytes(w, h, &buf[a..b])`)
